@@ -20,11 +20,22 @@ Theorem C11_literal_exact : forall fparse crank src v t,
   In t (lex src) -> is_lit (ttype_of t) = true ->
   literal_value fparse (ttype_of t) (tval t) <> None.
 Proof. exact literal_exact. Qed.
+(* an accepted source is consumed entirely: nothing is left between the collection (and
+   its trailing EOL tokens) and the EOF token *)
+Theorem C11_accepted_consumes_all : forall fparse crank src v,
+  parse_source fparse crank src = PValue v ->
+  exists cs e, lex src = cs ++ [e] /\ ttype_of e = TEOF /\ Forall (nonEOF fparse) cs.
+Proof. exact accepted_consumes_all. Qed.
 (* ... they are reported: parseIntrinsic stops with the diagnostic for that very token *)
 Theorem C11_literal_rejected_is_located : forall fparse t r,
   is_lit (ttype_of t) = true -> literal_value fparse (ttype_of t) (tval t) = None ->
   parse_intrinsic fparse (mkSt [] (t :: r)) = Stop (PSyntax t).
 Proof. exact parse_intrinsic_rejects. Qed.
+
+Theorem C11_literal_accepted_with_its_value : forall fparse t r v,
+  is_lit (ttype_of t) = true -> literal_value fparse (ttype_of t) (tval t) = Some v ->
+  parse_intrinsic fparse (mkSt [] (t :: r)) = Yes v t (mkSt [] r).
+Proof. exact parse_intrinsic_accepts. Qed.
 
 (* literal_meaning, integers: the positional value, exactly the int64 / uint64 range *)
 Theorem C11_integer_meaning_unsigned : forall ds, ds <> [] -> all_digits ds = true ->
@@ -111,7 +122,9 @@ Proof. vm_compute. reflexivity. Qed.
 
 Print Assumptions C11_parse_depends_on_tokens.
 Print Assumptions C11_literal_exact.
+Print Assumptions C11_accepted_consumes_all.
 Print Assumptions C11_literal_rejected_is_located.
+Print Assumptions C11_literal_accepted_with_its_value.
 Print Assumptions C11_integer_meaning_unsigned.
 Print Assumptions C11_integer_meaning_plus.
 Print Assumptions C11_integer_meaning_minus.
